@@ -156,6 +156,16 @@ impl Model {
         m.apply_pending();
         m
     }
+    /// As `recovered`, for a candidate whose committed-track marks were set by hand.
+    pub fn recovered_keep_commit_marks(&self) -> Model {
+        let mut m = self.clone();
+        m.lose_uncommitted_tracks();
+        let (c, mm) = (m.cards.len(), (m.mesh_nodes.len(), m.mesh_edges.len()));
+        m.apply_pending();
+        m.cards_committed = c;
+        m.mesh_committed = mm;
+        m
+    }
     /// Commit / drop / automatic checkpoint: the in-memory tracks reach the file.
     pub fn tracks_committed(&mut self) {
         self.cards_committed = self.cards.len();
